@@ -1,6 +1,6 @@
 SPECIFICATION Spec
 CONSTANTS
-  DtNames = {"schar", "uchar", "char", "short", "ushort", "int", "uint", "long", "ulong", "float", "double", "ldouble", "cfloat", "cdouble", "CS", "AR", "A2"}
+  DtNames = {"schar", "uchar", "char", "short", "ushort", "int", "uint", "long", "ulong", "float", "double", "ldouble", "cfloat", "cdouble", "CS", "AR", "SA"}
   Edits = 2
   MaxTail = 2
   Wide = FALSE
